@@ -105,7 +105,11 @@ func vfC20Versions(useBcrypt bool) []*vfC20Version {
 	bad := &vfC20Version{Name: "malformed", HTText: "alice:" + "x" + ":extra-field\nbob\n", EmText: "\"unterminated,quote\nx@y\n"}
 	// parses as CSV but one entry is not a SHA / bcrypt hash: the whole version must be refused
 	partial := &vfC20Version{Name: "partially-valid", HTText: entry("erin", "pw5") + "\nalice:plaintext-password\n", EmText: "erin@example.com\n\"broken\n"}
-	return append(vs, bad, partial)
+	// a version cut short in the middle of an entry (what a non-atomic rewrite leaves behind): a password field of 0-3 bytes
+	cut0 := &vfC20Version{Name: "cut-short-0", HTText: entry("alice", "pw1") + "\ncarol:\n", EmText: "alice@example.com\n\"cut\n"}
+	cut2 := &vfC20Version{Name: "cut-short-2", HTText: entry("bob", "pw2") + "\ncarol:$2\n", EmText: "bob@example.com\n\"cut,\n"}
+	cut3 := &vfC20Version{Name: "cut-short-3", HTText: entry("bob", "pw2") + "\ncarol:{SH\n", EmText: "bob@example.com\n\"\n"}
+	return append(vs, bad, partial, cut0, cut2, cut3)
 }
 
 func vfC20(w *vfWorld) {
@@ -231,6 +235,9 @@ func vfC20(w *vfWorld) {
 	w.nontriv = cs.Reloads > 0
 	if !vfRaceEnabled {
 		// (under the race detector only the detector's reports count: a parallel history cannot be replayed exactly)
+		for _, pn := range w.watch.Panics() {
+			w.violate("C20", "reload-panic", "", "a reload action panicked (on the real watcher goroutine this ends the process; the previous contents are gone with it): %s", pn)
+		}
 		vfC20Check(w, "htpasswd", versions, history, "reload-ht", "validate")
 		vfC20Check(w, "authenticated-emails", versions, history, "reload-em", "isvalid")
 	}
